@@ -9,7 +9,10 @@
 (*   Top(k)          when the upper envelope of iteration k is requested   *)
 (*   Env(k, ok, iter_ok)  after the lower envelope returned; ok = both     *)
 (*                   envelopes exist; iter_ok = the iterate passed in      *)
-(*                   equals previous iterate - step * previous mean        *)
+(*                   equals previous iterate - step * previous mean;       *)
+(*                   cfg_ok = both envelopes equal the ones re-built from  *)
+(*                   the interpolation / extrema / padding options as they *)
+(*                   were configured when the call was entered             *)
 (*   Stop(k, fired, indep, near)  after the stop function returned; indep  *)
 (*                   = the harness's own evaluation of the documented rule *)
 (*   Energy(fired)   after _energy_difference returned                     *)
@@ -44,6 +47,7 @@ TTop == /\ IsEvent("Top")
 TEnv == /\ IsEvent("Env")
         /\ Clause("env.iteration_number", Ev.k = niters)
         /\ Clause("env.iterate_is_previous_minus_step_mean", Ev.iter_ok = 1)
+        /\ Clause("env.built_with_the_configured_options", Ev.cfg_ok = 1)
         /\ IF Ev.ok = 1 THEN EnvOK ELSE EnvMissing
         /\ UNCHANGED c /\ Consume
 TStop == /\ IsEvent("Stop")
